@@ -21,6 +21,12 @@ of every component of the chain).  The relation demanded for each edit is taken 
                        components naming only FILES must then keep their strong hash (content-based, 'exactly when').
 Edits the statement does not name (variable renamed to the same text, order of the references field, fuzzy under a
 change of the target's own definition) are recorded as informational counters only.
+
+Fields spelled through %(variables)s (family V in checks/_c16_fam.py; `exe_via` + edit X3 in the chain workload): what a
+component runs is the text AFTER its variables got their values, so a changed value of the variable behind the executable /
+an argument / the image (component, stage, global or platform definition; the same package on another platform; a
+sibling with the same template and another value) must change the strong hash, while the same text spelled literally, a
+shadowed or unrelated definition, or a platform that leaves the variable alone must not.
 """
 from __future__ import annotations
 
@@ -111,7 +117,11 @@ def materialise_case(case: Dict[str, Any], root: str) -> Dict[str, Any]:
         touched.append(os.path.join(ext, rel))
     pkg = os.path.join(base, "the.package")
     os.makedirs(os.path.join(pkg, "conf"))
-    text = yaml.safe_dump(case["doc"], sort_keys=False).replace("@EXT@", ext)
+    doc = json.loads(json.dumps(case["doc"]))
+    for pv in (doc.get("variables") or {}).values():      # JSON turned the stage indices into strings
+        if isinstance(pv, dict) and isinstance(pv.get("stages"), dict):
+            pv["stages"] = {int(k): v for k, v in pv["stages"].items()}
+    text = yaml.safe_dump(doc, sort_keys=False).replace("@EXT@", ext)
     with open(os.path.join(pkg, "conf", "flowir_package.yaml"), "w") as f:
         f.write(text)
     for rel, content in case["data"].items():
@@ -119,8 +129,9 @@ def materialise_case(case: Dict[str, Any], root: str) -> Dict[str, Any]:
         os.makedirs(os.path.dirname(p), exist_ok=True)
         with open(p, "w") as f:
             f.write(content)
-    package = experiment.model.storage.ExperimentPackage.packageFromLocation(pkg)
-    exp = experiment.model.data.Experiment.experimentFromPackage(package, location=base)
+    platform = case.get("platform")     # None: the default platform
+    package = experiment.model.storage.ExperimentPackage.packageFromLocation(pkg, platform=platform)
+    exp = experiment.model.data.Experiment.experimentFromPackage(package, location=base, platform=platform)
     inst = exp.instanceDirectory
     g = exp.experimentGraph
     for n in g.graph.nodes:
@@ -163,19 +174,27 @@ def run_family_case(w, fc: Dict[str, Any], root: str):
     if fc.get("tie"):
         w.count("family_O_bases_with_equally_long_same_name_references")
     for k, v in enumerate(fc["variants"]):
-        try:
-            he = materialise_case(v["case"], os.path.join(root, "f%d" % fc["index"], "v%d" % k))
-        except Exception as exc:
-            w.count("edited_experiment_did_not_load")
-            w.count("edited_experiment_did_not_load_" + v["id"])
-            if os.environ.get("VERIF_DEBUG"):
-                print("LOADFAIL", v["id"], repr(exc)[:500])
-            continue
+        jp = v.get("judged_prime") or j        # the component of E' that is compared with `j` of E
+        if v.get("within"):
+            he = hb                            # two components of ONE experiment
+        else:
+            try:
+                he = materialise_case(v["case"], os.path.join(root, "f%d" % fc["index"], "v%d" % k))
+            except Exception as exc:
+                w.count("edited_experiment_did_not_load")
+                w.count("edited_experiment_did_not_load_" + v["id"])
+                if os.environ.get("VERIF_DEBUG"):
+                    print("LOADFAIL", v["id"], repr(exc)[:500])
+                continue
         w.evaluated()
         w.count("pairs")
         w.count("pairs_" + v["id"])
+        if fc["fam"] == "V":
+            w.count("family_V_pairs_field_" + v["detail"]["field"])
+            w.count("family_V_pairs_defined_by_" + v["detail"]["defined_by"])
         w.distinct("%s|%s" % (v["id"], fc["klass"]))
-        for which, want, a, b in (("strong", v["strong"], hb[j][0], he[j][0]), ("fuzzy", v["fuzzy"], hb[j][1], he[j][1])):
+        who = j if jp == j else "%s vs %s" % (j, jp)
+        for which, want, a, b in (("strong", v["strong"], hb[j][0], he[jp][0]), ("fuzzy", v["fuzzy"], hb[j][1], he[jp][1])):
             if want is None:
                 w.count("info_%s_%s_%s" % (v["id"], which, "same" if a == b else ("none" if b is None else "changed")))
                 continue
@@ -195,23 +214,38 @@ def run_family_case(w, fc: Dict[str, Any], root: str):
                             fam.has_suffix_spelling_tie(fc["E"], j):
                         key = KEY_ORDER
                     w.violation("%s hash of %s changed under a hash-irrelevant edit (%s: %s): %s -> %s" % (
-                        which, j, v["id"], json.dumps(v["detail"])[:160], a, b), wit, finding_key=key)
+                        which, who, v["id"], json.dumps(v["detail"])[:200], a, b), wit, finding_key=key)
             elif want == gen.DIFFER:
                 if b is None:
                     w.count("%s_differ_edit_gave_no_hash_not_judged" % which)
                     continue
                 w.count("%s_must_differ_judged" % which)
+                w.count("family_%s_must_differ_judged_%s" % (which, v["id"]))
                 if a == b:
                     w.violation("%s hash of %s unchanged under a hash-relevant edit (%s: %s): %s" % (
-                        which, j, v["id"], json.dumps(v["detail"])[:160], a), wit)
+                        which, who, v["id"], json.dumps(v["detail"])[:200], a), wit)
             elif want == gen.NONE:
                 w.count("%s_must_be_none_judged" % which)
                 if b is not None:
                     w.violation("%s hash %s of %s produced while a referenced input is missing (%s: %s)" % (
                         which, b, j, v["id"], json.dumps(v["detail"])[:160]), wit)
+        if v.get("chain"):
+            # fuzzy clause 2: the producer's fuzzy hash is OBSERVED to change => the consumer's fuzzy hash changes
+            cons, prod = v["chain"]
+            fp, fp2, fc1, fc2 = hb[prod][1], he[prod][1], hb[cons][1], he[cons][1]
+            if fp is None or fp2 is None or fp == fp2:
+                w.count("family_chain_links_producer_fuzzy_unchanged")
+            else:
+                w.count("family_chain_links_producer_fuzzy_changed_judged")
+                if fc1 == fc2:
+                    w.violation("fuzzy hash of %s did not change although the fuzzy hash of its producer %s changed "
+                                "(%s -> %s; %s)" % (cons, prod, fp, fp2, v["id"]),
+                                {"family_case": fc, "variant": v["id"], "variant_index": k, "which": "fuzzy-chain",
+                                 "demanded": "differ", "hash_E": fc1, "hash_E_prime": fc2, "hashes_E": hb,
+                                 "hashes_E_prime": he})
         if len(w.samples) < w.max_samples + 2 and k == 0 and fc["index"] < 4:
             w.sample({"family": fc["fam"], "variant": v["id"], "detail": v["detail"], "flowir_E": fc["E"]["doc"],
-                      "judged": j, "hashes_E": hb[j], "hashes_E_prime": he[j]}, force=True)
+                      "judged": j, "judged_in_E_prime": jp, "hashes_E": hb[j], "hashes_E_prime": he[jp]}, force=True)
 
 
 # ----------------------------------------------------------------------------- oracle
@@ -226,6 +260,14 @@ def judge(w, base: Dict[str, Any], hb: Dict[str, Any], e: Dict[str, Any], he: Di
     w.count("pairs")
     w.count("pairs_" + eid)
     w.distinct("%s|%s" % (eid, base["klass"]))
+    via = next(c_ for c_ in base["comps"] if c_["name"] == tb).get("exe_via")
+    if via:
+        w.count("pairs_target_executable_spelled_through_%s_variable" % via)
+        if eid == "R1-executable":
+            w.count("R1_pairs_executable_spelled_through_a_variable")
+    if eid == "U1-upstream-definition-changes-contents-equal" and \
+            next(c_ for c_ in base["comps"] if c_["name"] == e["upstream"]).get("exe_via"):
+        w.count("U1_pairs_upstream_executable_spelled_through_a_variable")
 
     def witness(which, want, got_a, got_b):
         return {"base": base, "edit": e, "which": which, "demanded": want, "hash_E": got_a, "hash_E_prime": got_b,
@@ -385,6 +427,9 @@ def run_job(job: Dict[str, Any], w: vlib.Worker):
     for i in job.get("family", []):
         fc = json.loads(json.dumps(fam.gen_family_case(vlib.rng("family", i), i)))
         run_family_case(w, fc, root)
+    for i in job.get("family_v", []):
+        fc = json.loads(json.dumps(fam.gen_var(vlib.rng("family-v", i), i)))
+        run_family_case(w, fc, root)
     for i in job.get("bases", []):
         spec = gen.gen_spec(vlib.rng("base", i))
         spec = json.loads(json.dumps(spec))
@@ -401,7 +446,9 @@ def main():
         "C16", "exploration",
         rule="pairs (E, E') of materialised experiments (chain of 1-4 producers -> target; collision-prone names, files "
              "of 1 B .. >64 KiB, equal-content files, references repeated on the command line, lsf/kubernetes images) "
-             "differing in exactly one aspect; a pair is non-trivial when E has both hashes and E' loaded; distinct = "
+             "differing in exactly one aspect, plus three families of small documents (absolute-path references, order "
+             "of the references field, executable/arguments/image spelled through component/stage/global/platform "
+             "variables); a pair is non-trivial when E has both hashes and E' loaded; distinct = "
              "distinct (edit kind, structural class of E: chain length, directory reference, image backend, #data "
              "files named on the command line)",
         assumptions=[
@@ -412,6 +459,10 @@ def main():
             "For an upstream definition change with equal contents the strong hash of the target is demanded equal "
             "only when the target has no directory reference (a directory has no content hash; the producer's hash "
             "stands in for it).",
+            "Variables behind an executable / argument / image: only the uncontroversial layering is used as ground truth "
+            "(component and stage definitions shadow global ones, the selected platform's globals shadow default's); "
+            "variable names contain no '.' (such a %(a.b)s is left uninterpolated in what is executed as well); the "
+            "fuzzy hash is informational under these edits.",
             "Producer outputs are written by the harness into the working directories (nothing is executed).",
             "Dynamic check: held on the pairs explored, not a proof.",
         ])
@@ -434,6 +485,10 @@ def main():
     nfam = 600 if c.tier == "thorough" else 48          # absolute-path / reference-order document families (tiny)
     perf = 30 if c.tier == "thorough" else 12
     jobs += [{"family": list(range(i, min(i + perf, nfam)))} for i in range(0, nfam, perf)]
+    # hash-relevant fields spelled through %(variables)s (component / stage / global / platform definitions)
+    nvar = 480 if c.tier == "thorough" else 36
+    perv = 24 if c.tier == "thorough" else 6
+    jobs += [{"family_v": list(range(i, min(i + perv, nvar)))} for i in range(0, nvar, perv)]
     vlib.fanout("checks.C16", jobs, c, timeout=900)
     c.extra["plan"] = {"bases": nbases, "bases_per_worker": per}
     c.floor("bases", int(nbases * 0.95))
@@ -450,6 +505,18 @@ def main():
     c.floor("pairs_A1-external-files-live-elsewhere", int(nfam * 0.45))
     c.floor("pairs_O1-references-field-permuted", int(nfam * 0.45))
     c.floor("pairs_A2-external-file-content", int(nfam * 0.4))
+    c.floor("family_bases_V", int(nvar * 0.9))
+    c.floor("pairs_V1-value-of-the-variable-changed", int(nvar * 0.85))
+    c.floor("pairs_V2-same-text-spelled-literally", int(nvar * 0.85))
+    c.floor("pairs_V5-sibling-same-template-other-value", int(nvar * 0.9))
+    c.floor("pairs_V6-sibling-spells-the-same-text-literally", int(nvar * 0.9))
+    c.floor("family_strong_must_differ_judged_V1-value-of-the-variable-changed", int(nvar * 0.85))
+    c.floor("family_strong_must_differ_judged_V4-platform-gives-the-variable-another-value", nvar // 18)
+    c.floor("family_strong_must_be_equal_judged_V4-platform-leaves-the-variable-alone", nvar // 8)
+    c.floor("family_V_pairs_field_executable", nvar * 2)
+    for src in fam.V_SOURCES:
+        c.floor("family_V_pairs_defined_by_" + src, nvar // 4)
+    c.floor("family_chain_links_producer_fuzzy_changed_judged", nvar // 2)
     c.floor("H_pairs", nbases)
     c.floor("H_root_without_any_hash", nbases)
     c.floor("H_pairs_distance_2", nbases // 6)
@@ -464,6 +531,8 @@ def main():
         c.floor("pairs_" + eid, int(nbases * 0.9))
     c.floor("pairs_U2-content-produced-by-indirect-producer", nbases // 4)
     c.floor("pairs_R4-reference-method", nbases // 8)
+    c.floor("pairs_X3-executable-spelling", int(nbases * 0.9))
+    c.floor("R1_pairs_executable_spelled_through_a_variable", nbases // 6)
     sys.exit(c.finish())
 
 
